@@ -55,6 +55,7 @@ const (
 	endPanic
 	endDeadlock
 	endRace
+	endHang
 )
 
 type pathEnd struct {
@@ -348,6 +349,7 @@ func (in *interpreter) branch(c *Term) bool {
 	switch {
 	case tOK && fOK:
 		p.symbolic = true
+		in.noteFork()
 		// continue with the side consistent with the cached model, fork the other
 		takeTrue := haveT || !haveF
 		if haveT && haveF && p.model != nil {
@@ -474,12 +476,52 @@ func (in *interpreter) concretize(fr *frame, t *Term) int64 {
 		panic(engineError{"solver returned unknown while enumerating values"})
 	}
 	if r == Sat {
+		in.noteFork()
 		nexcl := append(append([]int64{}, excl...), v)
 		p.forks = append(p.forks, append(append([]dec{}, p.decisions...), dec{isExcl: true, excl: nexcl}))
 	}
 	p.decisions = append(p.decisions, dec{v: v})
 	in.assertPC(eqc(v))
 	return v
+}
+
+// fork-site profile (GOSYM_FORKS=1): where paths split, for tuning harness shapes
+var (
+	forkProfile = os.Getenv("GOSYM_FORKS") != ""
+	forkMu      sync.Mutex
+	forkSites   = map[string]int{}
+)
+
+func (in *interpreter) noteFork() {
+	if !forkProfile {
+		return
+	}
+	w := in.hbWhere()
+	forkMu.Lock()
+	forkSites[w]++
+	forkMu.Unlock()
+}
+
+// DumpForkProfile prints the most frequent fork sites.
+func DumpForkProfile() {
+	if !forkProfile {
+		return
+	}
+	type kv struct {
+		k string
+		n int
+	}
+	var l []kv
+	for k, n := range forkSites {
+		l = append(l, kv{k, n})
+	}
+	sort.Slice(l, func(i, j int) bool { return l[i].n > l[j].n })
+	for i, e := range l {
+		if i >= 25 {
+			break
+		}
+		fmt.Fprintf(os.Stderr, "fork %6d %s\n", e.n, e.k)
+	}
 }
 
 // ---- nd API ----
@@ -761,6 +803,14 @@ func ndRaceDetect(fr *frame, args []value) value {
 
 func ndIsSymbolic(fr *frame, args []value) value { return true }
 
+// nd.HangBound(n): from here on a loop of the code under test that makes more than n iterations
+// in one activation is reported as a violation (kind=hang) instead of running into the engine's
+// caps; the harness chooses n far above what its bounded inputs can need.
+func ndHangBound(fr *frame, args []value) value {
+	fr.i.hangBound = int(asInt64(args[0]))
+	return nil
+}
+
 // ndQuiesce parks the caller until every other goroutine has finished or is blocked for good.
 func ndQuiesce(fr *frame, args []value) value {
 	in := fr.i
@@ -804,7 +854,7 @@ func init() {
 		"Byte": ndByte, "Uint16": ndUint16, "Uint32": ndUint32, "Uint64": ndUint64, "Bool": ndBool, "Int": ndInt,
 		"Float64": ndFloat64, "Bytes": ndBytes, "Choice": ndChoice, "Param": ndParam, "Assume": ndAssume, "Assert": ndAssert,
 		"Known": ndKnown, "Observe": ndObserve, "Yield": ndYield, "SchedExplore": ndSchedExplore, "SchedExploreFine": ndSchedExploreFine,
-		"RaceDetect": ndRaceDetect, "Symbolic": ndIsSymbolic, "Quiesce": ndQuiesce,
+		"RaceDetect": ndRaceDetect, "Symbolic": ndIsSymbolic, "Quiesce": ndQuiesce, "HangBound": ndHangBound,
 		"And": ndAnd, "Or": ndOr, "Not": ndNot, "IteInt": ndIte, "IteU8": ndIte, "IteU32": ndIte, "IteBool": ndIte,
 	} {
 		externals[base+name] = f
@@ -841,6 +891,7 @@ func (in *interpreter) runPath(prefix []dec) (res PathResult) {
 	in.nextAddr = 0
 	in.syncs = nil
 	in.timers = nil
+	in.hangBound = 0
 	in.solver.BeginPath()
 	defer func() {
 		if p := recover(); p != nil {
@@ -904,6 +955,8 @@ func (in *interpreter) runPath(prefix []dec) (res PathResult) {
 			res.Violation = mkViolation("deadlock", "deadlock", o.msg)
 		case endRace:
 			res.Violation = mkViolation("race", "race", o.msg)
+		case endHang:
+			res.Violation = mkViolation("hang", "hang", o.msg)
 		}
 	case targetPanic:
 		res.End = endPanic
